@@ -207,6 +207,45 @@ pub fn run(cx: &mut Ctx) {
                 check_plain(c, Fmt::Rgba8, w, h, &p, &format!("white with one odd texel at {}", k));
             }
         });
+        // tiles whose samples repeat with a short period (flat, 1-texel stripes, 2x2 checks ...): any
+        // "this tile is uniform / compressible" shortcut in the decoder has to tell them apart
+        for &f in &FMTS {
+            if matches!(f, Fmt::Etc1 | Fmt::Etc1A4) {
+                continue;
+            }
+            cx.case("periodic_tiles", |c| {
+                c.sit("periodic_and_nearly_flat_tiles");
+                let bps = f.bytes_per_sample();
+                let mut rng = Rng::new(4242 + bps as u64);
+                for period in [1usize, 2, 3, 4, 5, 8, 16, 32, 63] {
+                    for &(w, h) in &[(8usize, 8usize), (16, 8)] {
+                        let vals: Vec<Vec<u8>> = (0..period).map(|k| (0..bps).map(|b| 0x11u8.wrapping_mul(k as u8 + 1).wrapping_add(37u8.wrapping_mul(b as u8)) ^ rng.below(256) as u8).collect()).collect();
+                        let mut p = Vec::with_capacity(w * h * bps);
+                        for i in 0..w * h {
+                            p.extend_from_slice(&vals[i % period]);
+                        }
+                        check_plain(c, f, w, h, &p, &format!("{}x{} samples repeat with period {}", w, h, period));
+                        // the same, with the second tile of a 16x8 image different from the first
+                        if w == 16 {
+                            let half = p.len() / 2;
+                            for b in p[half..].iter_mut() {
+                                *b = !*b;
+                            }
+                            check_plain(c, f, w, h, &p, &format!("period {} and its complement", period));
+                        }
+                    }
+                }
+                // flat except one sample, at every position
+                for k in 0..64 {
+                    let mut p = vec![0x5Au8; 64 * bps];
+                    for b in 0..bps {
+                        p[k * bps + b] = 0xA5u8.wrapping_add(b as u8);
+                    }
+                    check_plain(c, f, 8, 8, &p, &format!("flat with one odd sample at {}", k));
+                }
+                c.nontrivial(fnv(format!("{}|periodic", f.name()).as_bytes()));
+            });
+        }
         cx.case("rgba8_random", |c| {
             let mut rng = Rng::new(88);
             let p = rng.bytes(4 * 64 * 32);
@@ -491,9 +530,11 @@ fn check_ci8(c: &mut Case, w: usize, h: usize, rng: &mut Rng) {
     let aw = (w + 7) / 8 * 8;
     let ah = (h + 3) / 4 * 4;
     // palette sizes: the extremes (1, 2, 255, 256 entries) every third time
-    let npal = if rng.chance(1, 3) { *rng.pick(&[1usize, 2, 16, 255, 256, 256]) } else { rng.range(1, 256) };
+    // (and palettes with more entries than an 8-bit index can reach: the first 256 are the ones in use)
+    let npal = if rng.chance(1, 3) { *rng.pick(&[1usize, 2, 16, 255, 256, 256, 257, 300, 512]) } else { rng.range(1, 256) };
+    let nidx = npal.min(256);
     let palette: Vec<u16> = (0..npal).map(|_| rng.u32() as u16).collect();
-    if npal == 256 && w * h >= 256 {
+    if npal >= 256 && w * h >= 256 {
         c.sit("ci8_index_255_of_a_256_entry_palette");
     }
     // padding cells (outside w x h) hold an index that is NOT in the palette: they must never be looked up
@@ -501,7 +542,7 @@ fn check_ci8(c: &mut Case, w: usize, h: usize, rng: &mut Rng) {
     // index = position mod palette size inside the image
     for y in 0..h {
         for x in 0..w {
-            payload[pixels::ci8_offset(x, y, aw)] = ((y * w + x + 3 * y) % npal) as u8;
+            payload[pixels::ci8_offset(x, y, aw)] = ((y * w + x + 3 * y) % nidx) as u8;
         }
     }
     if npal < 256 {
@@ -538,7 +579,7 @@ fn check_ci8(c: &mut Case, w: usize, h: usize, rng: &mut Rng) {
             digest(c, &format!("ci8:{}x{}", w, h), px);
             for y in 0..h {
                 for x in 0..w {
-                    let idx = (y * w + x + 3 * y) % npal;
+                    let idx = (y * w + x + 3 * y) % nidx;
                     let e = pixels::expect_rgb5a3(palette[idx]);
                     for ch in 0..4 {
                         if !pixels::within(e[ch], px[(y * w + x) * 4 + ch]) {
